@@ -598,7 +598,7 @@ def check_c09(rep, tier, seed, wd, replay):
     for fi, f in enumerate(files):
         if f["o"]["skipmagic"] or f["o"].get("custom"):
             continue
-        into = ["into"] if fi % 2 else []
+        into = [[], ["into"], ["range"]][fi % 3]
         rcases.append({"id": "%s_rfull" % f["id"], "file": f["file"], "ropts": ["index:0"], "ops": [["messages"] + into], "base": f})
         for cut in range(len(f["file"])):
             rcases.append({"id": "%s_rcut%d" % (f["id"], cut), "file": f["file"][:cut], "ropts": ["index:0"], "ops": [["messages"] + into], "base": f, "cut": cut})
@@ -973,6 +973,14 @@ def check_c02(rep, tier, seed, wd, replay):
                             probs.append("ordered read returned a different multiset of messages than the scan (%d vs %d)" % (len(o["msgs"]), len(sm["msgs"])))
                     else:
                         st["errors"] += 1
+                        full = not (f["o"].get("skiprsh") or f["o"].get("skiprch") or f["o"].get("skipci"))
+                        if sm["end"] == "err:eof" and full and not f["o"].get("custom") and not c["id"].endswith("_scan"):
+                            # a file whose summary keeps chunk indexes together with the repeated schema and channel records
+                            # (the precondition for indexed reading), which the sequential scan reads to its end: the
+                            # index-based read has to find the same content, not fail half way. Without those records an error
+                            # is a permitted outcome; custom-compressed chunks are excepted (the Reader has no decompressor hook)
+                            probs.append("%s read of a writer-produced file failed with %s after %d messages and %d metadata callbacks; the sequential scan of the same file returns %d messages without error"
+                                         % (h[12:], o["end"], len(o["msgs"]), len(o["mds"]), len(sm["msgs"])))
                     # metadata callback: scan delivers all; indexed delivers the indexed ones
                     if "mdcb" in c["ropts"] and o["end"] == "err:eof":
                         want_all = ["md %s %s" % (cm.hx(m["name"]), ",".join("%s:%s" % (k.hex(), v.hex()) for k, v in sorted(m["metadata"])) or "-") for m in f["d"]["metadata"]]
@@ -1084,7 +1092,7 @@ def check_c03(rep, tier, seed, wd, replay):
     cases = []
     for f in files:
         for suf, ro in (("log", ["order:log"]), ("rev", ["order:rev"]), ("file", []), ("scan", ["index:0"])):
-            c = {"id": f["id"] + "_" + suf, "file": f["file"], "ropts": ro, "ops": [["messages"], ["messages", "into"]], "base": f, "order": suf}
+            c = {"id": f["id"] + "_" + suf, "file": f["file"], "ropts": ro, "ops": [["messages"], ["messages", "into"], ["messages", "range"]], "base": f, "order": suf}
             cases.append(c)
     go, model, nd = read_corr(rep, cases, wd, "c03")
     st = {"ordered_reads": 0, "messages": 0, "ties_checked": 0}
@@ -1626,7 +1634,7 @@ def check_c01(rep, tier, seed, wd, replay):
         lo = {"validate": i % 2, "cb": ("full", "fullrev")[(i // 8) % 2], "acrc": 1, "skipmagic": 1 if f["o"]["skipmagic"] else 0, "reuse": (i // 2) % 2}
         lcases.append({"id": f["id"] + "_lex", "file": f["file"], "lopts": lo, "src": {"seek": (i // 4) % 2}, "base": f})
         if not f["o"]["skipmagic"]:
-            rcases.append({"id": f["id"] + "_scan", "file": f["file"], "ropts": ["index:0"], "ops": [["messages"], ["messages", "into"]], "base": f})
+            rcases.append({"id": f["id"] + "_scan", "file": f["file"], "ropts": ["index:0"], "ops": [["messages"], ["messages", "into"], ["messages", "range"]], "base": f})
     go_l, model_l, nd1 = lex_corr(rep, lcases, wd, "c01l")
     go_r, model_r, nd2 = read_corr(rep, rcases, wd, "c01r")
     st = {"records_compared": 0, "messages_compared": 0, "xor_files": 0}
@@ -1747,9 +1755,15 @@ def parsed_events(events, drop_index_offsets=True):
     return res
 
 
-def layout_reads(fid, data):
+def layout_reads(fid, data, windows=None):
     base = {"file": data}
-    return [dict(base, id=fid + "_lex", kind="lex", lopts={"cb": "full"}),
+    extra = []
+    if windows:
+        d0, d1, dl = windows
+        # time-bounded index-based reads: only part of the chunk indexes is selected
+        extra = [dict(base, id=fid + "_winlo", kind="read", ropts=["afternanos:%d" % d0, "beforenanos:%d" % d1], ops=[["messages"]]),
+                 dict(base, id=fid + "_winhi", kind="read", ropts=["order:log", "afternanos:%d" % dl], ops=[["messages", "into"]])]
+    return extra + [dict(base, id=fid + "_lex", kind="lex", lopts={"cb": "full"}),
             dict(base, id=fid + "_lexv", kind="lex", lopts={"cb": "full", "validate": 1}),
             dict(base, id=fid + "_info", kind="read", ropts=[], ops=[["info"]]),
             dict(base, id=fid + "_idx", kind="read", ropts=["mdcb"], ops=[["messages"]]),
@@ -1871,7 +1885,8 @@ def check_c12(rep, tier, seed, wd, replay):
     n = 220 if tier == "quick" else 1500
     lcases, rcases, groups = [], [], []
     for i in range(n):
-        L = arrangement(r, r.randint(1, 5), r.randint(1, 4), r.choice([[0, 1, 2, 3], [5, 9, 2**40, 2**64 - 1], list(range(12))]), empty_channel=False)
+        dom = r.choice([[0, 1, 2, 3], [5, 9, 2**40, 2**64 - 1], list(range(12))])
+        L = arrangement(r, r.randint(1, 5) if i % 3 else r.randint(4, 9), r.randint(1, 4), dom, empty_channel=False)
         L["items"] = [it for it in L["items"] if it[0] != "metadata"]
         L["items"].append(("attachment", {"log_time": 3, "create_time": 4, "name": b"a", "media_type": b"m", "data": b"attachment-data"}))
         L["items"].append(("metadata", {"name": b"tail", "metadata": [(b"x", b"y")]}))
@@ -1881,7 +1896,7 @@ def check_c12(rep, tier, seed, wd, replay):
             data, _ = mcapenc.build(LL)
             fid = "c12_%d_%d" % (i, v)
             ids.append((fid, LL))
-            for c in layout_reads(fid, data):
+            for c in layout_reads(fid, data, windows=(dom[0], dom[1], dom[-1])):
                 (lcases if c["kind"] == "lex" else rcases).append(c)
         groups.append(ids)
     go_l, model_l, nd1 = lex_corr(rep, lcases, wd, "c12l")
@@ -1905,14 +1920,14 @@ def check_c12(rep, tier, seed, wd, replay):
                 keep = [l for l in o["info"] if l.split(" ")[0] in ("ischema", "ichannel")]
                 sig.append((o["head"], tuple(keep)))
             else:
-                msgs = o["msgs"] if suf in ("_idx", "_scan") else sorted(o["msgs"])
+                msgs = o["msgs"] if suf in ("_idx", "_scan", "_winlo") else sorted(o["msgs"])
                 sig.append((o["head"].replace(" scan", "").replace(" indexed", "") if o["head"] else None, tuple(msgs), tuple(o["mds"]) if suf == "_scan" else (), o["end"]))
         return tuple(sig)
     ncmp = 0
     for ids in groups:
         ref_id, ref_L = ids[0]
         for fid, LL in ids[1:]:
-            for suf in ("_lex", "_lexv", "_info", "_idx", "_scan", "_log", "_rev"):
+            for suf in ("_lex", "_lexv", "_info", "_idx", "_scan", "_log", "_rev", "_winlo", "_winhi"):
                 G = go_l if suf.startswith("_lex") else go_r
                 a, b = G.get(ref_id + suf), G.get(fid + suf)
                 c = byid[fid + suf]
@@ -1923,16 +1938,16 @@ def check_c12(rep, tier, seed, wd, replay):
                     # indexed reads are compared only between layouts that both carry what the index-based reader needs
                     indexable = lambda X: "chunk_index" in X.get("groups", ["chunk_index"]) and any(it[0] == "chunk" for it in X["items"])
                     unchunked = lambda X: any(it[0] == "message" for it in X["items"])
-                    if suf in ("_idx", "_log", "_rev") and not (indexable(ref_L) and indexable(LL) and not unchunked(ref_L) and not unchunked(LL)):
+                    if suf in ("_idx", "_log", "_rev", "_winlo", "_winhi") and not (indexable(ref_L) and indexable(LL) and not unchunked(ref_L) and not unchunked(LL)):
                         pass
                     elif sa != sb:
                         probs.append("%s of two legal layouts of the same content differ" % suf[1:])
                 report_case(rep, c, probs, cl.lex_replay if suf.startswith("_lex") else cr.read_replay)
-        for suf in ("_lex", "_lexv", "_info", "_idx", "_scan", "_log", "_rev"):
+        for suf in ("_lex", "_lexv", "_info", "_idx", "_scan", "_log", "_rev", "_winlo", "_winhi"):
             c = byid[ref_id + suf]
             report_case(rep, c, [], cl.lex_replay if suf.startswith("_lex") else cr.read_replay)
     cov = summarize(rep, len(lcases) + len(rcases), len(groups),
-                    "each logical content rendered by the reference encoder in 3 legal layouts: different chunk partitions (incl. empty chunks and unchunked messages), schema/channel records at top level / inside the first chunk / repeated in every chunk, all permutations of summary groups sampled, optional sections (statistics, attachment index, message indexes, summary offsets, CRCs) present or not; read by lexer, Info, indexed, scan, LogTime, Reverse+topic; compared with the model; oracle: same content from every layout (indexed reads compared between layouts that keep chunk indexes and chunk every message)",
+                    "each logical content rendered by the reference encoder in 3 legal layouts: different chunk partitions (incl. empty chunks and unchunked messages), schema/channel records at top level / inside the first chunk / repeated in every chunk, all permutations of summary groups sampled, optional sections (statistics, attachment index, message indexes, summary offsets, CRCs) present or not; read by lexer, Info, indexed, scan, LogTime, Reverse+topic, and two time-bounded index-based reads (a narrow window at the low end in file order, an open-ended one at the high end in log-time order); compared with the model; oracle: same content from every layout (indexed reads compared between layouts that keep chunk indexes and chunk every message)",
                     [cl.lex_replay(c)[:4] for c in lcases[:2]], {"contents": len(groups), "layout_comparisons": ncmp, "disagreements": nd1 + nd2})
     return cov, []
 
